@@ -112,7 +112,7 @@ def _run_traverse(tree, api, mode, start, *, raise_at=None):
     from swcgeom.core import Tree
     from swcgeom.core import swc_utils as su
 
-    ev, node_err = [], []
+    ev, node_err, kept = [], [], []
     boom = RuntimeError("rv-callback-raise")
 
     def ident(nd):
@@ -122,7 +122,9 @@ def _run_traverse(tree, api, mode, start, *, raise_at=None):
             node_err.append(f"callback got {type(nd).__name__}, not Tree.Node")
         elif nd.attach is not tree:
             node_err.append("callback node is attached to another tree")
-        return int(nd.id)
+        i = int(nd.id)
+        kept.append((nd, i))  # callbacks may keep / return the handle they were given
+        return i
 
     def enter(nd, arg):
         i = ident(nd)
@@ -156,6 +158,11 @@ def _run_traverse(tree, api, mode, start, *, raise_at=None):
         if raise_at is not None:
             return ev, ("raised", e is boom), node_err
         raise
+    for nd, i in kept:  # a handle kept by the callback must still denote the node it was given for
+        if int(nd.id) != i:
+            node_err.append(f"node handle passed for node {i} later reads as node {int(nd.id)} "
+                            f"(handles are shared between callback invocations)")
+            break
     return ev, ret, node_err
 
 
